@@ -401,7 +401,7 @@ def _stm(e, pre, fresh):
     if k == "set":
         return ("set", e[1], fresh.on_set(e[1], _stm(e[2], pre, fresh)))
     if k == "destruct":
-        return ("destruct", e[1], _stm(e[2], pre, fresh))
+        return ("destruct", e[1], fresh.on_set(None, _stm(e[2], pre, fresh)))
     if k == "fndecl":
         return ("fndecl", e[1], e[2], e[3], hoist(e[4], fresh))
     if k == "block":
